@@ -139,6 +139,10 @@ struct Items<I> {
     /// report a loose one: (hint, Some(4 * hint)) - what `str::chars()` does: only the lower bound is a promise
     loose: bool,
 }
+thread_local! {
+    /// set when an iterator has returned None: String never polls again (an iterator need not be fused)
+    static ITEMS_DONE: std::cell::Cell<bool> = const { std::cell::Cell::new(false) };
+}
 impl<I: Iterator> Iterator for Items<I> {
     type Item = I::Item;
     fn next(&mut self) -> Option<I::Item> {
@@ -146,8 +150,13 @@ impl<I: Iterator> Iterator for Items<I> {
         if self.calls == self.m {
             panic!("{}", CB_PANIC);
         }
+        if self.calls > 1 && ITEMS_DONE.with(|d| d.get()) {
+            panic!("{}", CB_PANIC); // polled again after it had said None
+        }
         let _p = crate::gate::Paused::new(); // building an item is the caller's work, not the crate's
-        self.it.next()
+        let r = self.it.next();
+        ITEMS_DONE.with(|d| d.set(r.is_none()));
+        r
     }
     fn size_hint(&self) -> (usize, Option<usize>) {
         // String asks once, before it starts iterating; an iterator may not like being asked in the middle
@@ -383,6 +392,7 @@ impl Pool {
     /// of a symbolic size class.
     pub fn exec(&mut self, op: &mut Op, pick: usize) -> CallRes {
         let mut res = CallRes::default();
+        let mut res_shim_extra: Vec<String> = vec![];
         // ------------------------------------------------------------------- the real crate
         let before = shim::begin_call(&op.f);
         crate::gate::take_extra();
@@ -391,12 +401,23 @@ impl Pool {
         // allocator requests of the crate outside its buffer allocator (a panic's own machinery allocates: not counted)
         let extra = crate::gate::take_extra();
         res.x_a = if out.is_ok() { extra } else { 0 };
+        // bytes of a guard zone / a freed block / never-written memory inside a handle's own 16 bytes: something was read
+        // from outside the text of a live block (an over-read leaves no other trace)
+        for (i, s) in self.ls.iter().enumerate() {
+            if let Some(s) = s {
+                let raw = s.__verif_raw();
+                if raw[15] < 0xD0 && raw[..15].iter().any(|b| [shim::CANARY, shim::UNINIT, shim::POISON].contains(b)) {
+                    res_shim_extra.push(format!("out-of-bounds:handle {} holds guard / freed / unwritten bytes {:02x?}", i + 1, &raw[..]));
+                }
+            }
+        }
         res.d_a = st.d_a;
         res.d_r = st.d_r;
         res.d_d = st.d_d;
         res.inj = st.inj;
         res.nreq = st.nreq;
         res.shim = st.errors;
+        res.shim.append(&mut res_shim_extra);
         match out {
             Ok(Out::Ok) => res.cls = "ok".into(),
             Ok(Out::None) => res.cls = "none".into(),
